@@ -366,6 +366,7 @@ func (x *Exec) contractCall(i *ssa.Call, callee *ssa.Function, cc *Contract, val
 	if cc.Trusted != "" {
 		x.w.noteTrusted(key, cc.Trusted)
 	}
+	x.callRes[fmt.Sprintf("callres_%s_%d", callee.Name(), ord)] = res
 	return res
 }
 
